@@ -62,7 +62,7 @@ def decl_refs(p):
     return out
 
 
-def split(p, rng, k, lay, drop_pub=None, drop_import=None, force_pub=()):
+def split(p, rng, k, lay, drop_pub=None, drop_import=None, force_pub=(), extra_imports=()):
     """partition the declarations over k modules; returns (files [(name, source)], model info)"""
     names = [c[0] for c in p['consts']] + [f['name'] for f in p['fns']]
     where = {n: rng.below(k) for n in names}
@@ -75,6 +75,9 @@ def split(p, rng, k, lay, drop_pub=None, drop_import=None, force_pub=()):
                 pub.add(r)
                 imports[where[n]].add(where[r])
     pub |= set(force_pub)
+    for (m_, j_) in extra_imports:
+        if m_ != j_:
+            imports[m_].add(j_)
     if drop_pub is not None and drop_pub in pub:
         pub.discard(drop_pub)
     files = []
@@ -173,27 +176,34 @@ def main():
                     dist["split:agree"] += 1
                 else:
                     key = "split:%d:%s:%s" % (i, part, o)
-                    # known finding F37: a pub constant whose initialiser uses a private constant of its own module is
-                    # spliced into the importer as an expression, where the private name does not resolve.
+                    # known finding F37: the expander splices a pub constant into the importer WITH its initialiser expression,
+                    # so every constant that expression mentions (transitively) must resolve in the importer too - it does not
+                    # when it is private in the exporting module, or public in a third module the importer does not import.
+                    # Neutralisation: make exactly those constants pub and import their modules into the importer; if the
+                    # program then behaves like the single file, this is the known finding.
                     consts = set(c[0] for c in p['consts'])
-                    hidden = set(r for n in pub if n in consts for r in refs.get(n, ()) if r in consts and r not in pub
-                                 and where[r] == where[n])
-                    changed = True
-                    while changed:
-                        changed = False
-                        for n in list(hidden):
-                            for r in refs.get(n, ()):
-                                if r in consts and r not in pub and r not in hidden and where[r] == where[n]:
-                                    hidden.add(r)
-                                    changed = True
-                    if hidden and 402 in (codes_of(kv(ha)[1]) if ha.startswith("err") else []):
-                        files_n, _w, _p, _i, _r = split(p, SplitMix64(sv), k, lay, force_pub=hidden)
+                    force = set()
+                    extra = set()
+                    for m_ in range(k):
+                        seen_c = set()
+                        todo = [n for n in pub if n in consts and where[n] != m_ and where[n] in imports[m_]]
+                        while todo:
+                            n = todo.pop()
+                            for r_ in refs.get(n, ()):
+                                if r_ in consts and r_ not in seen_c:
+                                    seen_c.add(r_)
+                                    todo.append(r_)
+                                    if where[r_] != m_ and not (r_ in pub and where[r_] in imports[m_]):
+                                        force.add(r_)
+                                        extra.add((m_, where[r_]))
+                    if force and 402 in (codes_of(kv(ha)[1]) if ha.startswith("err") else []):
+                        files_n, _w, _p, _i, _r = split(p, SplitMix64(sv), k, lay, force_pub=force, extra_imports=extra)
                         fields = []
                         for j in o:
                             fields += [files_n[j][0], esc(files_n[j][1])]
                         ha_n = run_harness_pooled(["alpha\trun\t" + "\t".join(fields)])[0]
                         if runlib.impl_obs(ha_n)[:3] == mo:
-                            key = "c12:pub-constant-initialised-from-private-constant"
+                            key = "c12:pub-constant-initialiser-not-resolvable-in-importer"
                     viols.append((key, {
                         "why": "the program split over %d files (order %s) does not behave like the single-file program" % (k, o),
                         "files": dict(files), "order": o, "single_file": single, "harness_request": rq,
@@ -264,7 +274,7 @@ def main():
     pa = run_harness_serial(["alpha\trun\t" + "\t".join(x for nm, src in probe for x in (nm, esc(src)))])[0]
     ph, pd = kv(pa)
     if not (ph == "ok" and pd.get("status") == "3"):
-        rep.violation("c12:pub-constant-initialised-from-private-constant", {"files": dict(probe), "implementation": pa[:300]})
+        rep.violation("c12:pub-constant-initialiser-not-resolvable-in-importer", {"files": dict(probe), "implementation": pa[:300]})
     else:
         rep.notes.append("known finding F37 no longer reproduces on its probe")
     # interface matrix: one item of every declaration kind in a leaf module c, pub or not; every acyclic import graph over
